@@ -782,6 +782,9 @@ MUTANTS = [
     M('run-argument-not-validated', S,
       "        if not isinstance(discard_exploration, bool):\n            raise ValueError(\"'discard_exploration' must be a bool.\")\n\n        t_start = time()",
       "        t_start = time()", 'C12'),
+    M('log-v-live-pairs-all-rows', S,
+      "            log_l = np.concatenate(\n                [ll[s:] for ll, s in zip(self.log_l, start)])\n            log_v = np.repeat(\n                self.shell_log_v - np.log(np.maximum(self.shell_n, 1)),\n                self.shell_n)\n            log_v_live",
+      "            log_l = np.concatenate(self.log_l)\n            log_v = np.repeat(\n                self.shell_log_v - np.log(np.maximum(self.shell_n, 1)),\n                self.shell_n)\n            log_v_live", 'C02 C12'),
     M('job-returns-the-caller', N,
       "        bound.sample(n_points=n_points, return_points=False)\n        return bound\n",
       "        bound.sample(n_points=n_points, return_points=False)\n        return self\n", 'C08 C03'),
